@@ -119,7 +119,7 @@ def run_tests(i):
         open(os.path.join(d, m["path"]), "w").write(m["new"])
         env = dict(os.environ, PYTHONPATH=d, PANOPTICA_CITATION_REMINDER="false")
         try:
-            r = subprocess.run(["/venv/bin/python", "-m", "pytest", "-q", "-x", "-p", "no:cacheprovider", "--timeout=300", "unit_tests", "--deselect", "unit_tests/test_example_scripts.py"], cwd=d, env=env, capture_output=True, text=True, timeout=900)
+            r = subprocess.run(["/venv/bin/python", "-m", "pytest", "-q", "-x", "-p", "no:cacheprovider", "--timeout=300", "unit_tests", "-k", "not Test_Example_Scripts"], cwd=d, env=env, capture_output=True, text=True, timeout=900)
             tail = (r.stdout.strip().splitlines() or ["?"])[-1]
         except subprocess.TimeoutExpired:
             tail = "timeout"
@@ -133,18 +133,24 @@ if __name__ == "__main__":
     ap.add_argument("--files", default="")
     ap.add_argument("--tests", action="store_true")
     ap.add_argument("--out", default="/tmp/mutation_probe.json")
+    ap.add_argument("--resume", default="", help="reuse stage 1 of an earlier output file")
     a = ap.parse_args()
     idx = [i for i, m in enumerate(MUTS) if a.files in m["path"]]
     print(f"{len(idx)} mutants", flush=True)
-    jobs = [(i, p) for i in idx for p in PROPS]
-    with mp.get_context("fork").Pool(16) as pool:
-        res = pool.map(job, jobs, chunksize=2)
     by = {i: {"viol": {}, "und": []} for i in idx}
-    for i, prop, viol, und in res:
-        if viol:
-            by[i]["viol"][prop] = viol
-        elif und:
-            by[i]["und"].append(prop)
+    if a.resume:
+        for r in json.load(open(a.resume)):
+            if r["i"] in by and MUTS[r["i"]]["line"] == r["line"] and MUTS[r["i"]]["what"] == r["what"]:
+                by[r["i"]] = {"viol": r["caught_by"], "und": r["undecided"]}
+    else:
+        jobs = [(i, p) for i in idx for p in PROPS]
+        with mp.get_context("fork").Pool(16) as pool:
+            res = pool.map(job, jobs, chunksize=2)
+        for i, prop, viol, und in res:
+            if viol:
+                by[i]["viol"][prop] = viol
+            elif und:
+                by[i]["und"].append(prop)
     missed = [i for i in idx if not by[i]["viol"]]
     tests = {}
     if a.tests and missed:
